@@ -396,6 +396,21 @@ func checkC11(p *Prog, r *Report) {
 			}
 			for _, arg := range c.Common().Args {
 				if !typeIs(arg.Type(), "log/slog", "Logger") {
+					/* Or a value of a module type which carries the
+					logger (a transcript writer made from sl.With(…)). */
+					if n := namedOf(arg.Type()); nil != n && nil != n.Obj().Pkg() && strings.HasPrefix(n.Obj().Pkg().Path(), ModPath) {
+						for _, x := range valueRoots(arg, nil) {
+							wc, isCall := x.V.(*ssa.Call)
+							if "call" != x.Kind || !isCall || "(*log/slog.Logger).With" != calleeName(wc.Common()) {
+								continue
+							}
+							if vals := orderedVariadic(wc.Common()); len(vals) >= 2 {
+								if s, ok := constString(stripConv(vals[0], false)); ok && s == lkDir {
+									found = true
+								}
+							}
+						}
+					}
 					continue
 				}
 				wc, ok := resolveCell(arg).(*ssa.Call)
